@@ -114,6 +114,7 @@ def run(ctx):
         if r.coverage.get(act, (0, 0))[0] == 0:
             raise MachineryError('Tamper action %s never taken' % act)
     ctx.model('MC_Tamper', 'MC_Tamper_nomdc', must_hold=False)
+    ctx.model('MC_Encrypt')
     ev = []
     W = c03.World(ctx)
     outsider = K.new_key('ed25519', name='Outsider', email='out@x.org', subs=[('cv25519', {KeyFlags.EncryptCommunications}), ('rsa2048', {KeyFlags.EncryptCommunications})])
